@@ -6,6 +6,7 @@ import (
 	"fmt"
 	"os"
 	"os/exec"
+	"runtime"
 	"sort"
 	"strconv"
 	"strings"
@@ -958,8 +959,19 @@ func mustLoad(t NamedText) *ast.Schema {
 	return s
 }
 
-// watchdog kills the process when the simulation makes no progress for 20 s
-// of real time (a hang is C02's subject; here it is machinery trouble: exit 2).
+// onHang is installed by whoever executes runs in this process (the worker,
+// the replay command): it receives the verdict below and does not return.
+var onHang func(v C11Violation)
+
+// watchdog watches the simulation's progress. No yield point reached for 20 s
+// of real time is machinery trouble (a non-terminating computation is C02's
+// subject): exit 2. One case is a verdict instead: an earlier operation
+// returned inside a Lock()/Unlock() bracket (verifsim.LockLeaks) and now a task
+// sits in a sync primitive's acquire path called from library code. Tasks run
+// one at a time and a task is never parked inside such a bracket, so nobody
+// else holds that lock: the library leaked it, and the call never returns -
+// "every concurrent call returns exactly what the same call returns when run
+// alone" is violated by not returning at all.
 func watchdog(done chan struct{}, seed uint64) {
 	last := verifsim.Progress()
 	stuck := 0
@@ -972,6 +984,12 @@ func watchdog(done chan struct{}, seed uint64) {
 		p := verifsim.Progress()
 		if p == last {
 			stuck++
+			if stuck >= 3 && verifsim.LockLeaks() > 0 && onHang != nil {
+				if fr, stack := blockedInLibrary(); fr != "" {
+					onHang(C11Violation{Class: "hang:lock-not-released@" + fr, Oracle: "liveness",
+						Detail: fmt.Sprintf("task %d has been blocked for %d s acquiring a sync primitive from library code, after %d operation(s) of this process returned without releasing a lock they had taken; every other task is parked by the simulator, so nobody else can hold it\n%s", verifsim.Cur(), 2*stuck, verifsim.LockLeaks(), stack)})
+				}
+			}
 			if stuck >= 10 {
 				fatal(2, "watchdog: no yield reached for 20s in run seed %d (cur task %d)", seed, verifsim.Cur())
 			}
@@ -980,6 +998,37 @@ func watchdog(done chan struct{}, seed uint64) {
 			last = p
 		}
 	}
+}
+
+// blockedInLibrary looks for a task goroutine that is waiting in a sync
+// primitive called from library code; it returns the first library frame and
+// that goroutine's stack.
+func blockedInLibrary() (string, string) {
+	buf := make([]byte, 1<<20)
+	buf = buf[:runtime.Stack(buf, true)]
+	for _, g := range strings.Split(string(buf), "\n\n") {
+		lines := strings.Split(g, "\n")
+		if len(lines) < 3 || !strings.HasPrefix(lines[0], "goroutine ") {
+			continue
+		}
+		hdr := lines[0]
+		if !(strings.Contains(hdr, "[sync.") || strings.Contains(hdr, "[semacquire")) || !strings.Contains(g, "main.execOp") {
+			continue
+		}
+		for _, l := range lines[1:] {
+			if strings.HasPrefix(l, "\t") {
+				continue
+			}
+			fn := l
+			if i := strings.LastIndex(fn, "("); i > 0 {
+				fn = fn[:i]
+			}
+			if libFrame(fn) {
+				return strings.TrimPrefix(fn, "github.com/vektah/gqlparser/v2/"), firstN(g, 3000)
+			}
+		}
+	}
+	return "", ""
 }
 
 // ---------- generation ----------
@@ -1063,7 +1112,12 @@ func genRun(seed uint64, source string) *C11Run {
 		run.BurstTask = int32(r.Intn(nt))
 		run.BurstYield = uint64(r.Range(1, 6000))
 	}
-	run.SiteMask = []int{1, 2, 3, 7, 7, 4}[r.Intn(6)]
+	run.SiteMask = []int{1, 2, 3, 7 | 16, 7 | 16, 4, 16, 16}[r.Intn(8)]
+	if run.SiteMask == 16 && run.Strategy == "random" {
+		// preemption only around the library's own synchronisation: few sites,
+		// so switch at most of them
+		run.SwitchBits = r.Range(0, 2)
+	}
 	// faults: most operations should complete
 	nf := r.Weighted([]int{5, 3, 2, 1})
 	for i := 0; i < nf; i++ {
@@ -1227,6 +1281,18 @@ func c11Main(args []string) {
 		}
 		st.LastRunSeed = rseed
 		var res runResult
+		onHang = func(v C11Violation) {
+			// the run cannot be finished: record the verdict like any other, write
+			// this worker's results as they stand, and end the process
+			rp := c11Replay{Format: "verif-c11-replay/1", Property: "C11", Class: v.Class, Run: spec, Witness: []C11Violation{v}}
+			path := fmt.Sprintf("%s/C11-%d-w%d-%d.json", *replayDir, rseed, *worker, len(st.Violations))
+			writeJSON(path, rp)
+			st.Violations = append(st.Violations, c11Found{v.Class, v.Oracle, firstN(v.Detail, 4000), path, rseed, *worker, n, spec.ConcurrentFirst})
+			st.Runs++
+			st.WallS = time.Since(t0).Seconds()
+			writeJSON(*out, st)
+			os.Exit(0)
+		}
 		if *coldEvery > 0 && n%*coldEvery == *coldEvery-1 {
 			spec.ConcurrentFirst = true
 			res = execCold(spec, *replayDir, *racelog, *worker)
@@ -1343,6 +1409,16 @@ func c11ReplayMain(args []string) {
 	var rl *raceLog
 	if *racelog != "" {
 		rl = &raceLog{path: fmt.Sprintf("%s.%d", *racelog, os.Getpid())}
+	}
+	onHang = func(v C11Violation) {
+		res := runResult{Violations: []C11Violation{v}}
+		if *out != "" {
+			writeJSON(*out, res)
+		}
+		if !*quiet {
+			fmt.Printf("REPRODUCED class=%s\n  %s\n", v.Class, firstN(v.Detail, 1500))
+		}
+		os.Exit(1)
 	}
 	var earlier []C11Violation
 	for _, h := range rp.History {
